@@ -12,7 +12,7 @@ ARG_ORDER = {
     'ptr_eq': ['a', 'b'], 'w_ptr_eq': ['a', 'b'], 'deref': ['h'], 'try_unwrap': ['h', 'as'], 'drop_value': ['v'],
     'get_mut': ['h'], 'make_mut': ['h'], 'into_raw': ['h', 'as'], 'as_ptr': ['h', 'as'], 'from_raw': ['r', 'as'],
     'inc_strong': ['r'], 'dec_strong': ['r'], 'w_into_raw': ['w', 'as'], 'w_from_raw': ['r', 'as'],
-    'on_drop_panic': ['obj'], 'note': [], 'links': ['h'], 'drop_if': ['h'], 'drop_all_wextras': ['obj'],
+    'on_drop_panic': ['obj'], 'note': [], 'links': ['h'], 'drop_any': ['h'], 'cost_clone': ['h', 'as'], 'cost_drop': ['h'], 'drop_if': ['h'], 'drop_all_wextras': ['obj'],
 }
 
 
@@ -89,7 +89,9 @@ def normalise(trace):
         if t[0] == 'dtor':
             run.append(t)
         else:
-            if t[0] == 'tmethod':
+            if t[0] in ('tmethod', 'cost'):
+                continue
+            if t[0] == 'ret' and t[1] in ('cost_clone', 'cost_drop'):
                 continue
             out.extend(sorted(run))
             run = []
